@@ -103,3 +103,13 @@ theorem keys_upsert_of_not_mem (d : Dict κ α) (k : κ) (v : α) (h : k ∉ key
 
 end Dict
 end BB
+
+namespace BB
+theorem mapM_ok_of_forall {α β} (f : α → Except Err β) (g : α → β) (l : List α)
+    (h : ∀ x ∈ l, f x = .ok (g x)) : l.mapM f = .ok (l.map g) := by
+  induction l with
+  | nil => simp [List.mapM_nil, pure, Except.pure]
+  | cons a t ih =>
+    rw [List.mapM_cons, h a (by simp), ih (fun x hx => h x (by simp [hx]))]
+    simp [bind, Except.bind, pure, Except.pure]
+end BB
